@@ -60,7 +60,7 @@ func processDB(env *Pass1, operands []ast.Exp) {
 				}
 			case *ast.IdentFactor:
 				ident := factor.Value                        // Assuming IdentFactor has a Value field
-				if labelLOC, ok := env.SymTable[ident]; ok { // Check if it's a known label
+				if labelLOC, ok := env.SymTable[ident]; ok && !env.PendingLabels[ident] { // Check if it's a known label
 					loc += 1                               // DB stores 1 byte for label address (lower byte)
 					ocodes = append(ocodes, labelLOC&0xFF) // Append lower byte of label address
 				} else {
@@ -146,7 +146,7 @@ func processDW(env *Pass1, operands []ast.Exp) {
 			switch factor := op.Factor.(type) {
 			case *ast.IdentFactor:
 				ident := factor.Value
-				if labelLOC, ok := env.SymTable[ident]; ok { // Check if it's a known label
+				if labelLOC, ok := env.SymTable[ident]; ok && !env.PendingLabels[ident] { // Check if it's a known label
 					loc += 2                          // DW stores 2 bytes for label address
 					ocodes = append(ocodes, labelLOC) // Append label address (int32)
 				} else {
@@ -188,7 +188,7 @@ func processDD(env *Pass1, operands []ast.Exp) {
 			switch factor := op.Factor.(type) {
 			case *ast.IdentFactor:
 				ident := factor.Value
-				if labelLOC, ok := env.SymTable[ident]; ok { // Check if it's a known label
+				if labelLOC, ok := env.SymTable[ident]; ok && !env.PendingLabels[ident] { // Check if it's a known label
 					loc += 4                          // DD stores 4 bytes for label address
 					ocodes = append(ocodes, labelLOC) // Append label address (int32)
 				} else {
